@@ -6,7 +6,7 @@ MEMSHIM = ("double-free", "bad-layout", "bad-free", "bad-realloc", "canary", "us
            "realloc-after-free", "write-after-free", "leak", "shared-write")
 
 FATAL = {
-    "C01": {"always": ("TextOK", "ResultOK", "Abort"), "must_exercise": ("InlineEdit", "Growth")},
+    "C01": {"always": ("TextOK", "ResultOK", "Abort"), "must_exercise": ("InlineEdit", "Growth"), "conv": ("BigOpOK", "LoopOK")},
     "C02": {"always": ("Isolation", "StaticsOK"), "shim": ("shared-write",), "must_exercise": ("Isolation",)},
     "C03": {"always": ("RcOK", "BlocksOK", "NoResizeShared", "EndClean", "Abort"), "shim": MEMSHIM, "must_exercise": ("NoResizeShared",)},
     # the accounting predicates count against C05 from the step at which an allocation was refused on
@@ -15,7 +15,7 @@ FATAL = {
     "C06": {"always": ("SizeSafe",), "when": {"size": ("RcOK", "BlocksOK", "EndClean", "TextOK", "Isolation", "Utf8OK", "CapOK", "WithCap", "ReservePost", "ResultOK", "Abort")},
             "shim": MEMSHIM, "shim_when": "size", "must_exercise": ("SizeSafe",)},
     "C07": {"always": ("RejectedIsNoop", "Utf8OK", "ResultOK.index"), "must_exercise": ("RejectedIsNoop",)},
-    "C08": {"always": ("CloneCheap",), "must_exercise": ("CloneCheap",)},
+    "C08": {"always": ("CloneCheap",), "must_exercise": ("CloneCheap",), "conv": ("BigCloneOK",)},
     "C09": {"always": ("CtorStorage", "InlineEdit", "PtrOK"), "must_exercise": ("CtorStorage", "InlineEdit"),
             "conv": ("IntStorage", "BoolStorage", "CharStorage", "StrStorage", "FloatStorage")},
     "C17": {"always": ("TextOnly",), "must_exercise": ("TextOnly", "TextOnlySame")},
@@ -23,8 +23,8 @@ FATAL = {
     "C20": {"always": ("NicheFree", "PtrOK", "TextOK", "ResultOK", "Isolation", "StaticsOK", "RcOK", "BlocksOK", "NoResizeShared", "EndClean", "Abort"),
             "shim": MEMSHIM, "must_exercise": ("InlineEdit",)},
     "C10": {"always": ("StaticBorrow", "StaticPrefix", "StaticsOK"), "must_exercise": ("StaticBorrow",)},
-    "C11": {"always": ("CapOK", "WithCap", "ReservePost", "NoReallocInCap"), "must_exercise": ("WithCap", "ReservePost", "NoReallocInCap")},
-    "C12": {"always": ("Growth",), "must_exercise": ("Growth",)},
+    "C11": {"always": ("CapOK", "WithCap", "ReservePost", "NoReallocInCap"), "must_exercise": ("WithCap", "ReservePost", "NoReallocInCap"), "conv": ("NoMoveOK", "BigOpOK")},
+    "C12": {"always": ("Growth",), "must_exercise": ("Growth",), "conv": ("GrowOK", "LoopOK")},
     "C13": {"always": ("ShrinkPost",), "must_exercise": ("ShrinkPost",)},
     "C04": {},
     "C14": {"conv": ("IntText",)},
@@ -54,7 +54,7 @@ CORE3, CORE4, CORE5 = mc("MC_Core_d3"), mc("MC_Core_d4"), mc("MC_Core_d5")
 SEED1, SEED2, SEED3 = mc("MC_Seeded_d1"), mc("MC_Seeded_d2"), mc("MC_Seeded_d3")
 FAIL2, FAILP, SIZES2, IDX1 = mc("MC_Fail_d2"), mc("MC_Fail2_d2"), mc("MC_Sizes_d2"), mc("MC_Idx_d1")
 FINAL2, SHRINK2, PAIRS2, CORE3H = mc("MC_Final_d2"), mc("MC_Shrink_d2"), mc("MC_Pairs_d2"), mc("MC_Core3_d4")
-CONV, PROOF = {"kind": "conv"}, {"kind": "proof"}
+CONV, PROOF, SCALE = {"kind": "conv"}, {"kind": "proof"}, {"kind": "scale"}
 # TLC simulation mode: random walks of depth 30 over the widest alphabet (3 handles, failures, panics, decoders);
 # TLC evaluates every enabled transition of every visited state, and every one of those is replayed
 SIM = mc("MC_Sim", sim=(16, 30), variants=False, workers=4)
@@ -71,19 +71,19 @@ def matrix(stages):
     return {"kind": "matrix", "configs": ["default", "nodefault", "all"], "profiles": ["release", "debug"], "stages": stages}
 
 PROFILES = {
-    "C01": {"quick": [CORE4, SEED2, dq("mixed")], "thorough": [CORE5, SEED3, CORE3H, FINAL2, SIM, dt("mixed"), dt("all")]},
+    "C01": {"quick": [CORE4, SEED2, SCALE, dq("mixed")], "thorough": [CORE5, SEED3, CORE3H, FINAL2, SIM, SCALE, dt("mixed"), dt("all")]},
     "C02": {"quick": [CORE3, SEED2, FAIL2, SIZES2, dq("all")], "thorough": [CORE4, SEED3, CORE3H, FAILP, SIZES2, SIM, PROOF, dt("all")]},
     "C03": {"quick": [CORE3, SEED2, FAIL2, dq("all")], "thorough": [CORE4, SEED3, CORE3H, FAILP, SIZES2, SIM, PROOF, dt("all")]},
-    "C04": {"quick": [conc("own2", "{1,2}", "cQuick2", sample_every=200), conc("lend3", "{1,2,3}", "cLend2", sample_every=200)],
-            "thorough": [conc("own2", "{1,2}", "cQuick2", sample_every=100), conc("lend3", "{1,2,3}", "cLend2", sample_every=100), conc("own3", "{1,2,3}", "cOwn3", sample_every=400)]},
+    "C04": {"quick": [conc("own2", "{1,2}", "cQuick2", sample_every=40), conc("lend3", "{1,2,3}", "cLend2", sample_every=40)],
+            "thorough": [conc("own2", "{1,2}", "cQuick2", sample_every=10), conc("lend3", "{1,2,3}", "cLend2", sample_every=10), conc("own3", "{1,2,3}", "cOwn3", sample_every=40)]},
     "C05": {"quick": [FAIL2, dq("fail")], "thorough": [FAILP, SEED2, dt("fail")]},
     "C06": {"quick": [SIZES2, dq("sizes")], "thorough": [SIZES2, SHRINK2, dt("sizes")]},
     "C07": {"quick": [IDX1, CORE3, dq("mixed")], "thorough": [IDX1, CORE4, SEED2, dt("mixed")]},
-    "C08": {"quick": [SEED2, PAIRS2, dq("mixed")], "thorough": [SEED3, CORE4, CORE3H, dt("mixed")]},
+    "C08": {"quick": [SEED2, PAIRS2, SCALE, dq("mixed")], "thorough": [SEED3, CORE4, CORE3H, SCALE, dt("mixed")]},
     "C09": {"quick": [SEED2, FINAL2, CONV, dq("mixed")], "thorough": [SEED3, CORE4, FINAL2, CONV, dt("mixed")]},
     "C10": {"quick": [SEED2, dq("mixed")], "thorough": [SEED3, CORE4, dt("mixed")]},
-    "C11": {"quick": [SEED2, CORE3, FAIL2, dq("all")], "thorough": [SEED3, CORE4, FAIL2, SIZES2, SHRINK2, dt("all")]},
-    "C12": {"quick": [SEED2, CORE3, FAIL2, dq("all")], "thorough": [SEED3, CORE4, FAIL2, SIZES2, SHRINK2, dt("all")]},
+    "C11": {"quick": [SEED2, CORE3, FAIL2, SCALE, dq("all")], "thorough": [SEED3, CORE4, FAIL2, SIZES2, SHRINK2, SCALE, dt("all")]},
+    "C12": {"quick": [SEED2, CORE3, FAIL2, SCALE, dq("all")], "thorough": [SEED3, CORE4, FAIL2, SIZES2, SHRINK2, SCALE, dt("all")]},
     "C13": {"quick": [SEED2, SHRINK2, FAIL2, dq("all")], "thorough": [SEED3, CORE4, SHRINK2, FAIL2, SIZES2, dt("all")]},
     "C14": {"quick": [CONV], "thorough": [CONV, {"kind": "sweep", "what": "u32"}, {"kind": "sweep", "what": "i32"}]},
     "C15": {"quick": [CONV, SEED1], "thorough": [CONV, SEED2, {"kind": "sweep", "what": "f32"}]},
